@@ -461,8 +461,14 @@ def evaluate_payload_template(input, context, template):
                     "States.ArrayUnique failed, arg[0] is not an array."
                 )
 
-            # Use set to get unique values from input then use list to convert back
-            return list(set(input_array))
+            # Keep the first occurrence of each value, in order. A set is not
+            # used as its order depends on the process hash seed and as JSON
+            # objects and arrays are not hashable.
+            unique = []
+            for item in input_array:
+                if not any(json_equal(item, seen) for seen in unique):
+                    unique.append(item)
+            return unique
 
         def asl_intrinsic_Base64Encode(args):
             if len(args) != 1:
